@@ -264,7 +264,7 @@ func TestC10(t *testing.T) {
 	h := hh.Start(t, "C10",
 		"cases = nested struct/slice/pointer schemas with random struct-tag sets (distinct names per tag kind), several simultaneously failing nodes, IssuePath overrides, root-level failures, PostTransforms that return errors or issues, through every front end (map, zjson, zhttp JSON/form/query, zenv) and in Validate; non-trivial = >=2 issues and (>=2 of them below the root, or a tag-renamed key, or an IssuePath); distinct = FNV-1a of the case JSON",
 		"invariants on every returned map: each issue exactly once under the key equal to its Path ($root for the empty path), $first a singleton that is one of the issues and (when no test sets its own message) pointer-identical to the first issue recorded, no empty lists, nil iff no issue; paths equal the documented key chain (source tag, zog tag, schema key; [i]; IssuePath wins) computed by the specification; SanitizeMap/SanitizeList keep keys and order",
-		"tag values contain no commas, dots or brackets and are never empty (misconfiguration)")
+		"tag values are never empty and contain no dots (a dot in a key is indistinguishable from nesting in a path); commas are part of the key: the whole tag value names it")
 	defer h.Finish()
 	base := model.DefaultCfg("parse")
 	base.PPost, base.PCatch = 0, 0.1
